@@ -16,7 +16,9 @@
  * still releases the stream; a failing fseek leaves the position and returns -1; a failing fread returns a short
  * count; a failing fopen returns NULL; a failing ftell returns -1.
  *
- * Every job runs in its own child process (fresh library state; crash / sanitizer / hang containment, alarm()).
+ * Every job runs in its own child process (fresh library state; crash / sanitizer / hang containment).  A job that is
+ * still running after JOB_LIMIT_S seconds is killed and reported with status=timeout; after MAX_HUNG such jobs the
+ * remaining jobs of the file are not run ("<lineno> skipped-after-hangs <job>").
  * One output line per job:
  *   <lineno> wl=<w> mode=<m> k=<k> var=<v> status=<ok|exit:N|asan|ubsan|sig:N|timeout> ncalls=<n> nfaults=<n>
  *            fkind=<stdio kind of the first failed call or -> rets=<name:rc:ok,...> allok=<0|1>
@@ -605,6 +607,7 @@ static void wl_gr_read(const char *p) { prep(wl_gr_write, p); wl_gr_read_body(p)
 static void wl_an_read(const char *p) { prep(wl_an_write, p); wl_an_read_body(p); }
 
 #include "drive_fault_wl2.h"
+#include "drive_fault_wl3.h"
 
 static struct { const char *name; void (*fn)(const char *); } WL[] = {
     {"h_put", wl_h_put}, {"h_putc", wl_h_putc}, {"h_put16", wl_h_put16}, {"h_linked", wl_h_linked},
@@ -616,6 +619,8 @@ static struct { const char *name; void (*fn)(const char *); } WL[] = {
     {"sd_dims", wl_sd_dims}, {"sd_inq", wl_sd_inq}, {"sd_cinq", wl_sd_cinq}, {"h_special", wl_h_special},
     {"h_inq", wl_h_inq}, {"v_attr", wl_v_attr}, {"v_inq", wl_v_inq}, {"v_inq1", wl_v_inq1},
     {"gr_more", wl_gr_more}, {"gr_inq", wl_gr_inq}, {"gr_inq1", wl_gr_inq1},
+    {"sd_scalar", wl_sd_scalar}, {"sd_sread", wl_sd_sread}, {"nc_write", wl_nc_write}, {"nc_update", wl_nc_update},
+    {"nc_read", wl_nc_read}, {"h_append", wl_h_append}, {"v_append", wl_v_append}, {"sd_append", wl_sd_append},
 };
 #define NWL ((int)(sizeof WL / sizeof WL[0]))
 
@@ -646,6 +651,9 @@ static long imgdiff(struct image a, struct image b)
 
 struct outcome { char status[32]; struct image img; struct result res; };
 
+#define JOB_LIMIT_S 3
+#define MAX_HUNG 3               /* after this many hung jobs the rest of the job file is skipped (reported as such) */
+static int nhung;
 static long job_k2 = -1;
 static void run_child(const char *dir, void (*body)(const char *, void *), void *arg, long k, int md, int var,
                       struct outcome *o)
@@ -657,7 +665,7 @@ static void run_child(const char *dir, void (*body)(const char *, void *), void 
     __real_fflush(stdout);
     pid_t pid = getenv("C16_NOFORK") && k != -1 ? 0 : fork();   /* C16_NOFORK: debugging aid (gdb) */
     if (pid == 0) {
-        alarm(20);
+        alarm(JOB_LIMIT_S);      /* a fault-free job takes milliseconds: a job still running after this is a hang */
         fail_at = (md == 'n') ? -1 : k;
         fail_at2 = (md == 'n') ? -1 : job_k2;
         sticky = md == 't';
@@ -678,7 +686,7 @@ static void run_child(const char *dir, void (*body)(const char *, void *), void 
         else if (c == 98) strcpy(o->status, "ubsan");
         else snprintf(o->status, sizeof o->status, "exit:%d", c);
     }
-    else if (WIFSIGNALED(st) && WTERMSIG(st) == SIGALRM) strcpy(o->status, "timeout");
+    else if (WIFSIGNALED(st) && WTERMSIG(st) == SIGALRM) { strcpy(o->status, "timeout"); nhung++; }
     else snprintf(o->status, sizeof o->status, "sig:%d", WIFSIGNALED(st) ? WTERMSIG(st) : -1);
     o->res = *RES;
     o->img = slurp(path);
@@ -715,6 +723,7 @@ int main(int argc, char **argv)
         ln++;
         long k = -1; int var = 0;
         if (line[0] == '#' || sscanf(line, "%63s", wl) != 1) continue;
+        if (nhung >= MAX_HUNG) { printf("%ld skipped-after-hangs %s", ln, line); continue; }
 #ifdef C16_FN
         if (!strcmp(wl, "fn")) { fn_job(dir, ln, line); continue; }
 #endif
